@@ -19,8 +19,9 @@ TNil == Consume /\ E.ev = "nil" /\ ANil(E.r)
 TReset == /\ ti <= Len(Traces) /\ l = Len(Ev) /\ ti' = ti + 1 /\ l' = 0
           /\ IF ti + 1 <= Len(Traces)
                 THEN LET c == Cfg(Traces[ti + 1]) IN
-                     /\ cfg' = c /\ announced' = {} /\ nextSend' = [s \in 1..c.ns |-> 1]
-                     /\ received' = [r \in 1..c.nr |-> <<>>] /\ closed' = FALSE /\ gotNil' = [r \in 1..c.nr |-> FALSE]
+                     /\ cfg' = c /\ nextSend' = [s \in 1..c.ns |-> 1] /\ got' = {}
+                     /\ lastFrom' = [r \in 1..c.nr |-> [s \in 1..c.ns |-> 0]]
+                     /\ closed' = FALSE /\ gotNil' = [r \in 1..c.nr |-> FALSE]
                 ELSE UNCHANGED avars
 TNext == TSend \/ TRecv \/ TClose \/ TNil \/ TReset
 Stuck == (ti <= Len(Traces) /\ l < Len(Ev) /\ ~ENABLED TNext) => PrintT(<<"REJECTED", Traces[ti].id, l + 1, ToJson(E)>>)
